@@ -336,3 +336,59 @@ Definition fp_prob_dists (phis : list Q) (pts : list (Q * Q)) : list (option Z) 
   let csl := map cos_sin_encl phis in
   map (fun p => if Qleb 0 (fst p) && Qleb (fst p) 1
                 then Some (iabs_ub (isub (fp_prob_encl (fst p) csl) (iofQ (snd p)))) else None) pts.
+
+(* ---- C16: accuracy of the cosine / sine / 1/x generators on the continuum.
+   Same cell-cover scheme as check_sup; the target is evaluated at the cell centres from verified
+   enclosures: cos(tau * x), sin(tau * x) for x in an interval X through a rational point of X and
+   the Lipschitz constant |tau|; 1/x by interval division. *)
+Definition q_of_lo (x : I) : Q := match scaleZ with Zpos p => Qmake (lo x) p | _ => 0 end.
+Definition cs_scaled (tau : Q) (x : I) : I * I :=
+  let q := q_of_lo x in
+  let cs := cos_sin_encl (Qmult tau q) in
+  let w := (hi x - lo x)%Z in
+  let e := imul (iofQ tau) (mkI (- w) w) in
+  let e' := ihull e (ineg e) in
+  (iadd (fst cs) e', iadd (snd cs) e').
+(* 1/x for an interval with positive lower bound *)
+Definition iinv_pos (x : I) : I := mkI ((scaleZ * scaleZ) / hi x) (cdiv (scaleZ * scaleZ) (lo x)).
+
+Definition cell_ok_trig (usesin : bool) (c : list Q) (s tau L eps : Q) (cell : Q * Q) : bool :=
+  let th := fst cell in let r := snd cell in
+  let x := fst (cos_sin_encl th) in
+  let t := cs_scaled tau x in
+  let target := imul (iofQ s) (if usesin then snd t else fst t) in
+  Qleb 0 r && scaled_le_q (iabs_ub (isub (cheb_sum_I (map iofQ c) x ione x) target)) (qadd eps (Qopp (Qmult r L))).
+(* |sum_k c_k T_k(x) - s cos(tau x)| <= eps (resp. sin) for every x in [-1,1] *)
+Definition check_trig_acc (usesin : bool) (c : list Q) (s tau : Q) (cells : list (Q * Q)) (eps : Q) : bool :=
+  Qleb 0 s &&
+  cover_ok cells 0 && forallb (cell_ok_trig usesin c s tau (qadd (lipq c) (Qmult s (Qabs tau))) eps) cells.
+
+Fixpoint cover_upto (cells : list (Q * Q)) (reach stop : Q) : bool :=
+  match cells with
+  | [] => Qltb stop reach
+  | cell :: cs =>
+      let th := fst cell in let r := snd cell in
+      Qleb (qadd th (Qopp r)) reach &&
+      cover_upto cs (if Qleb reach (qadd th r) then qadd th r else reach) stop
+  end.
+Definition cell_ok_inv (c : list Q) (kinv L tol : Q) (cell : Q * Q) : bool :=
+  let th := fst cell in let r := snd cell in
+  let x := fst (cos_sin_encl th) in
+  Qleb 0 r && Qleb 0 th && Qleb th 2 &&
+  q_le_scaled kinv (lo x) && (0 <? lo x)%Z &&
+  scaled_le_q (iabs_ub (isub (cheb_sum_I (map iofQ c) x ione x) (iinv_pos x))) (qadd tol (Qopp (Qmult r L))).
+(* |sum_k c_k T_k(x) - 1/x| <= tol for every x in [1/kappa, 1];  kinv = 1/kappa, k2 >= kappa^2,
+   thmax: a rational angle in [0,2] with cos thmax <= 1/kappa (checked) *)
+Definition check_inv_acc (c : list Q) (kinv k2 thmax : Q) (cells : list (Q * Q)) (tol : Q) : bool :=
+  Qltb 0 kinv && Qleb 1 (Qmult (Qmult kinv kinv) k2) &&
+  Qleb 0 thmax && Qleb thmax 2 && scaled_le_q (hi (fst (cos_sin_encl thmax))) kinv &&
+  cover_upto cells 0 thmax && forallb (cell_ok_inv c kinv (qadd (lipq c) k2) tol) cells.
+
+(* monomial-basis input: through the exact poly2cheb model and its instance certificate *)
+Definition check_trig_acc_mono (usesin : bool) (p : list Q) (s tau : Q) (cells : list (Q * Q)) (eps : Q) : bool :=
+  check_p2c false p && check_trig_acc usesin (p2c_q false p) s tau cells eps.
+(* p / scale, exactly *)
+Definition qdiv_list (c : list Q) (scale : Q) : list Q := map (fun x => Qmult x (Qinv scale)) c.
+Definition check_inv_acc_scaled (c : list Q) (scale kappa thmax : Q) (cells : list (Q * Q)) (tol : Q) : bool :=
+  Qltb 0 scale && Qltb 0 kappa &&
+  check_inv_acc (qdiv_list c scale) (Qinv kappa) (Qmult kappa kappa) thmax cells tol.
